@@ -6,7 +6,8 @@
     full-file lemma for rollover). *)
 From RN Require Import Base.Res Codec.Varint Codec.BufReader Codec.ScanProofs
   RaftLog.LogFile RaftLog.Spec RaftLog.Layout RaftLog.RecordProofs RaftLog.InitProofs
-  RaftLog.Refine RaftLog.Corollaries RaftLog.ManagerProofs RaftLog.Examples.
+  RaftLog.Refine RaftLog.Corollaries RaftLog.ManagerProofs RaftLog.Examples
+  RaftLog.LogManager RaftLog.ManagerInv RaftLog.ManagerSpec RaftLog.ManagerRefine RaftLog.ManagerExamples.
 Local Open Scope N_scope.
 
 (** the representation invariant is established by creating a log file (any start index, term,
@@ -83,3 +84,51 @@ Proof. exact mgr_query_refines. Qed.
 Theorem C02_hypotheses_satisfiable : exists s st,
   RepS s st /\ a_first (fst st) = 1 /\ a_len (fst st) = 131 /\ a_last (fst st) 0 = (131, 2).
 Proof. exact rep_example. Qed.
+
+(** * the manager layer: the whole catalogue of log files refines ONE abstract log *)
+
+(** a store that never wrote anything represents the empty state (any rollover limit up to 4096) *)
+Theorem C02_manager_init : forall limit,
+  HDR_LEN + 10 < limit <= 4096 -> MRep (mgr_init limit) (mkMst None 0 None).
+Proof. exact MRep_init. Qed.
+
+(** forward simulation over every history of {append, batch, delete-from, query, last index,
+    snapshot pointer (install / install ahead of the log / build), restart}: every answer is the one the
+    abstract log demands; the catalogue invariant (distinct increasing ids, one well-formed actor
+    per range, closed ranges with exact counts, CONTIGUITY of the visible parts, current = last open
+    range, saved catalogue = in-memory catalogue) is re-established.  Scope ([mops_ok]): well-formed
+    non-empty records, delete-from and new pointers not below the newest snapshot pointer. *)
+Theorem C02_mgr_refines_alog : forall ops m st,
+  MRep m st ->
+  let '(m', outs) := mrun m ops in
+  mops_ok st ops outs -> exists st', mspecs st ops outs st' /\ MRep m' st'.
+Proof. exact mgr_refines_alog. Qed.
+
+Theorem C02_manager_query : forall m st lo hi,
+  MRep m st -> lo < U64MAX ->
+  let '(m', out) := mstep m (OQuery lo hi) in
+  MRep m' st /\ exists l, out = MRecs l /\
+    map to_ent l = match ms_log st with Some a => a_get a lo hi | None => [] end.
+Proof. exact manager_query. Qed.
+
+Theorem C02_reopen_returns_exactly_acked_multi_file : forall ops m st lo hi,
+  MRep m st -> lo < U64MAX ->
+  let '(m1, outs) := mrun m ops in
+  mops_ok st ops outs ->
+  exists st1, mspecs st ops outs st1 /\
+    let '(m2, o2) := mstep m1 OReopen in
+    let '(m3, o3) := mstep m2 (OQuery lo hi) in
+    o2 = MDone /\ exists l, o3 = MRecs l /\
+      map to_ent l = match ms_log st1 with Some a => a_get a lo hi | None => [] end.
+Proof. exact reopen_returns_exactly_acked_multi_file. Qed.
+
+(** non-vacuity: a history through rollover (two files), a pointer, a cut, a re-append and a restart
+    is in scope and ends in the expected log *)
+Theorem C02_manager_hypotheses_satisfiable : exists m st,
+  MRep m st /\ mspecs (mkMst None 0 None) mx_ops mx_outs st /\
+  ms_floor st = 6 /\
+  match ms_log st with
+  | Some a => a_first a = 5 /\ a_len a = 96 /\ a_last a 0 = (100, 2)
+  | None => False
+  end.
+Proof. exact manager_example. Qed.
